@@ -133,6 +133,10 @@ def one_case(rec, tap, rng, cid):
             kw["optimal_fit_num_samples"] = int(rng.integers(7, 12))
             kw["range_x"] = [0, float(rng.choice([np.inf, 5e-6, 1e-6]))]
             kw["method"] = method = "leastsq"
+    scan_after = bool(rng.random() < .2 and seg == 0 and "E" in p0
+                      and "optimal_fit_edelta" not in kw)
+    if scan_after:
+        kw["optimal_fit_num_samples"] = 7
     desc.update(settings={a_: b_ for a_, b_ in kw.items()
                           if a_ != "params_initial"},
                 init={n: [p0[n].value, p0[n].vary] for n in p0})
@@ -152,6 +156,18 @@ def one_case(rec, tap, rng, cid):
     rec.event("fits with method " + method)
     rec.event("fits with gcf_k != 1" if k != 1 else "fits with gcf_k == 1")
     fitlab.check_consistency(rec, idnt, desc, init=init)
+    if scan_after and idnt.fit_properties.get("success"):
+        # an E(delta) scan of the fitted curve (many throw-away fits) leaves
+        # the reported outputs of the fit as they are
+        try:
+            idnt.compute_emodulus_mindelta()
+        except BaseException as e:  # noqa
+            rec.event("scan after the fit raised " + type(e).__name__)
+        else:
+            rec.event("fits judged again after an E(delta) scan")
+            rec.evaluated(dg=(desc["curve"], desc["settings"], "after-scan"))
+            fitlab.check_consistency(rec, idnt, dict(desc, after="scan"),
+                                     init=init, prefix="after-scan/")
     if rng.random() < .35 and idnt.fit_properties.get("success"):
         # second fit of the SAME object: one fixed parameter changed by a
         # tiny amount (far below any 'close enough' tolerance in SI units)
